@@ -60,3 +60,22 @@ Theorem C15_first_available_granted_is_lowest :
   end.
 Proof. exact FactoryFirst.first_triggered_spec. Qed.
 Print Assumptions C15_first_available_granted_is_lowest.
+
+(* ROUND_ROBIN, one step per item, recorded truthfully, at the level of the process block (every world): when a
+   blocking machine worker's item is ready, the block draws exactly one index -- the number of draws so far modulo
+   the number of out-edges --, records exactly that index in the node's selection history, and issues its space
+   request on exactly that out-edge (theories/Factory/FactoryBlocks.v) *)
+From FV Require FactoryBlocks.
+Theorem C15_round_robin_one_step_per_item_recorded :
+  forall w p,
+  let n := pown (me w p) in let nd := get_node w n in
+  ppc (me w p) = 1%nat -> noutsel nd = PRoundRobin -> nblocking nd = true -> nouts nd <> [] ->
+  (n < length (wnodes w))%nat -> (p < length (wprocs w))%nat ->
+  let k := noutptr nd in let m := length (nouts nd) in
+  let w' := fst (worker_block w p) in
+  noutptr (get_node w' n) = S k /\
+  wlog w' = wlog w ++ [LSel n true (k mod m)] /\
+  pix (me w' p) = nth (k mod m) (nouts nd) 0%nat /\
+  ppc (me w' p) = 5%nat.
+Proof. exact FactoryBlocks.worker_round_robin_step. Qed.
+Print Assumptions C15_round_robin_one_step_per_item_recorded.
